@@ -348,6 +348,8 @@ func writeAstFacts(path string) error {
 		ops           []string
 	}
 	for _, x := range []sk{
+		// (the first two are still written, for the reader of the generated file; nothing pins them any more: AppendNode and
+		// (*NodeList).Append are TRANSLATED at heap level — progast.go — and tied in Props/C07P.lean)
 		{"appendNodeSliceOps", "ast/helpers.go AppendNode: its slice-level operations (the body is tied by translation at value level)",
 			sliceOps("ast", findFunc(parseFile("ast/helpers.go"), "AppendNode"))},
 		{"nodeListAppendSliceOps", "ast/node_list.go (*NodeList).Append: its slice-level operations (the body is tied by translation at value level)",
